@@ -114,15 +114,21 @@ def main():
     open_sigs = {k["signature"]: k for k in known if k.get("status") == "open"}
     exit_code = 0
     reported = []
+    diverged = []
     for sig in sorted(total.violations):
         recs = [r for _, r in total.violations[sig]]
         rec = recs[0]
         s1, _ = _replay_once(mod, rec["case"])
         s2, _ = _replay_once(mod, rec["case"])
         if s1 != s2 or sig not in s1:
-            print(f"HARNESS-ERROR: replay of a {sig} case diverged ({s1} / {s2}); "
-                  f"nondeterminism not owned by the harness; case={core.jdump(rec['case'])[:600]}")
-            return 2
+            # a recorded case that does not fail again in isolation: either the harness does not own some
+            # nondeterminism, or the implementation keeps state between cases.  Never reported as a
+            # violation; the run fails as a harness error unless another, reproducible, case is reported.
+            print(f"HARNESS-ERROR: replay of a {sig} case diverged ({s1} / {s2}); not reproducible in "
+                  f"isolation (state kept between cases, or nondeterminism not owned by the harness); "
+                  f"case={core.jdump(rec['case'])[:600]}")
+            diverged.append(sig)
+            continue
         if sig in open_sigs:
             print(f"KNOWN-FINDING: property={cid} {sig}: {open_sigs[sig].get('what', rec['message'])} "
                   f"({total.viol_count[sig]} cases in this run)")
@@ -178,6 +184,8 @@ def main():
           f"transitions={total.transitions} validated={total.traces} evaluations={total.evaluations} "
           f"nontrivial={total.nontrivial} outcomes={len(total.outcomes)} "
           f"exhaustive={not total.capped} wall={wall:.1f}s")
+    if diverged and not reported:
+        return 2
     if missing:
         print(f"HARNESS-ERROR: vacuous exploration, features never hit: {missing}")
         return 2
